@@ -23,6 +23,9 @@ func init() {
 		},
 		Run: runC25,
 		Controls: []Control{
+			{Name: "connector-waits-for-a-reader-that-does-not-exist", File: "protocols/bgp/server/fsm.go", Old: "\t\t\t\tcase fsm.conErrCh <- err:\n\t\t\t\t\tcontinue\n\t\t\t\tcase <-time.NewTimer(time.Second * 30).C:\n\t\t\t\t\tcontinue\n", New: "\t\t\t\tcase fsm.conErrCh <- err:\n\t\t\t\t\tcontinue\n\t\t\t\tcase <-ctx.Done():\n\t\t\t\t\treturn\n", Expect: "send-has-a-taker"},
+			{Name: "receiver-parks-on-the-failure-channel", File: "protocols/bgp/server/fsm.go", Old: "\t\t\tselect {\n\t\t\tcase fsm.msgRecvFailCh <- err:\n\t\t\tdefault:\n\t\t\t}\n", New: "\t\t\tfsm.msgRecvFailCh <- err\n", Expect: "send-has-a-taker"},
+			{Name: "sender-loop-gives-up-on-a-write-error", File: "protocols/bgp/server/update_sender.go", Old: "\t\t\tu.sendUpdates(pathAttrs, updatesPrefixes, pathID)\n\t\t\tu.sendMu.Unlock()\n", New: "\t\t\tu.sendUpdates(pathAttrs, updatesPrefixes, pathID)\n\t\t\tu.sendMu.Unlock()\n\t\t\tif u.fsm.con == nil {\n\t\t\t\tu.wg.Done()\n\t\t\t\treturn\n\t\t\t}\n", Expect: "stop-request-taker-stays"},
 			{Name: "ended-fsm-removes-itself-before-signalling", File: "protocols/bgp/server/fsm.go", Old: "\t\t\tfsm.done()\n\t\t\tfsm.peer.removeFSM(fsm)\n", New: "\t\t\tfsm.peer.removeFSM(fsm)\n", Expect: "ended-signal-before-locks"},
 			{Name: "register-leaks-lock-at-end-of-life", File: "routingtable/client_manager.go", Old: "\tif c.endOfLife {\n\t\tc.mu.Unlock()\n\t\treturn\n\t}\n\n\tc.clients[client] = opt", New: "\tif c.endOfLife {\n\t\treturn\n\t}\n\n\tc.clients[client] = opt", Expect: "lock-released-on-every-exit"},
 			{Name: "refresh-callback-locks-again", File: "routingtable/adjRIBOut/adj_rib_out.go", Old: "func (a *AdjRIBOut) removePathsForPrefix(pfx *bnet.Prefix) bool {\n\tr := a.rt.Get(pfx)\n", New: "func (a *AdjRIBOut) removePathsForPrefix(pfx *bnet.Prefix) bool {\n\ta.mu.Lock()\n\tr := a.rt.Get(pfx)\n\ta.mu.Unlock()\n", Expect: "no-reentry-through-callback"},
@@ -41,6 +44,9 @@ func c25Scope(f *core.Fn) bool {
 
 func runC25(c *core.Ctx) {
 	endedSignalBeforeLocks(c, "ended-signal-before-locks")
+	cs := collectChanSites(c.P)
+	sendHasATaker(c, cs, c25Scope)
+	stopRequestTakerStays(c, cs, c25Scope)
 	n := lockRules(c, c25Scope, 25)
 	c.Check(n >= 1, "no-reentry-through-callback", "calls that pass the locked receiver to a callee", token.NoPos, "none found: the rule matches nothing (AdjRIBOut.ReplaceFilterChain → LocRIB.RefreshClient(a) was the confirmed instance)")
 }
